@@ -124,7 +124,9 @@ let rec jspec_fields (ASpec (u, n, q, on, acts)) : (string * Json.t) list =
    | UMsg -> [("uses", Json.Str "acts.core.msg")]
    | UBlock -> [("uses", Json.Str "acts.core.block"); ("params", Json.Obj [("mode", Json.Str (if q then "sequence" else "parallel")); ("acts", jacts)])]
    | UParallel -> [("uses", Json.Str "acts.core.parallel"); ("params", Json.Obj [("in", inl); ("acts", jacts)])]
-   | USequence -> [("uses", Json.Str "acts.core.sequence"); ("params", Json.Obj [("in", inl); ("acts", jacts)])])
+   | USequence -> [("uses", Json.Str "acts.core.sequence"); ("params", Json.Obj [("in", inl); ("acts", jacts)])]
+   (* a package that fails when it is executed: a script that throws *)
+   | UFail -> [("uses", Json.Str "acts.transform.code"); ("params", Json.Str "throw new Error('boom')")])
   @ (match on with None -> [] | Some e -> [("on", Json.Str (levt_name e))])
 let rec spec_of_json (j : Json.t) : aspec =
   let uses = (match Json.get "uses" j with Json.Str s -> s | _ -> "") in
@@ -137,6 +139,7 @@ let rec spec_of_json (j : Json.t) : aspec =
   | "acts.core.block" -> ASpec (UBlock, O, (match Json.get "mode" params with Json.Str "parallel" -> false | _ -> true), on, acts)
   | "acts.core.parallel" -> ASpec (UParallel, n, true, on, acts)
   | "acts.core.sequence" -> ASpec (USequence, n, true, on, acts)
+  | "acts.transform.code" -> ASpec (UFail, O, true, on, [])
   | _ -> ASpec (UIrq, O, true, on, [])
 
 (* ---- workflow ---- *)
@@ -240,7 +243,7 @@ let kname_of = function KWorkflow -> "workflow" | KBranch -> "branch" | KStep ->
 let uses_of (n : node) =
   if n.n_kind <> KAct then "-" else if n.n_isset then "acts.transform.set" else
   match sp_u n.n_spec with UIrq -> "acts.core.irq" | UMsg -> "acts.core.msg" | UBlock -> "acts.core.block"
-  | UParallel -> "acts.core.parallel" | USequence -> "acts.core.sequence"
+  | UParallel -> "acts.core.parallel" | USequence -> "acts.core.sequence" | UFail -> "acts.transform.code"
 let node_name (e : eng) nstatic n =
   let i = int_of_nat n in
   if i >= nstatic then "dyn" else nname (nd e n).n_id
